@@ -191,7 +191,11 @@ impl CborCalculator {
             }
         }
 
-        let max_size = tx_size_without_fee + CborCalculator::get_coin_size(&Coin::max_value());
+        let mut max_size = tx_size_without_fee + CborCalculator::get_coin_size(&Coin::max_value());
+        if dependable_amount.is_some() {
+            //the size without fee does not include the coin that depends on the fee either
+            max_size += CborCalculator::get_coin_size(&Coin::max_value());
+        }
         let pessimistic_cost = min_fee_for_size(max_size, fee_algo)?;
         Ok((pessimistic_cost, max_size))
     }
